@@ -303,6 +303,7 @@ TRUSTED_BASE = [
     "Lean 4.33.0 kernel (thorough tier: re-checked with leanchecker)",
     "axioms: subset of {propext, Classical.choice, Quot.sound} (audited by #print axioms on every property theorem each run); no native_decide / bv_decide / sorry / admit / user axioms",
     "the correspondence check (harness, canonicalisation, generators) ties the hand-written model to /repo's current sources on the sampled inputs only",
+    "translate/shape_extract.py (comment / white-space / MYTH_VERIF_* removal and function lookup by name) pins the text of every modelled function to the text the model transcribes (Shape/<id>.lean, rfl)",
 ]
 
 
